@@ -112,7 +112,7 @@ def run(ctx):
     ctx.section(_index_spaces, ctx, index)
     ctx.section(_receiver_shift_agreement, ctx, index)
     ctx.section(_wrap_unconditional, ctx, index, spy, region, rfacts)
-    ctx.section(_lookups, ctx, index, spy)
+    ctx.section(_lookups, ctx, index, spy, region)
     ctx.section(_state, ctx, index)
 
 
@@ -253,21 +253,28 @@ def _wrap_unconditional(ctx, index, spy, region, rfacts):
         )
 
 
-def _lookups(ctx, index, spy):
+def _lookups(ctx, index, spy, region):
     """
     find_in_ast attaches `.default` through an argument index (known finding C13.index); the only lookup the
     driver may do is the one that selects the INPUT property. Looking the output location up through it too
     feeds a misaligned default into the file that is written.
     """
-    calls = [n for n in iter_own(spy.node) if isinstance(n, ast.Call) and (index.callee(spy.mod, n, spy) or "").endswith(".find_in_ast")]
+    calls = [(g, n) for g, n in region.nodes() if isinstance(n, ast.Call) and (index.callee(g.mod, n, g) or "").endswith(".find_in_ast")]
     ctx.need(calls, "sync_property no longer looks the input property up")
-    for c in calls:
+    for g, c in calls:
         a1 = norm(c.args[1]) if len(c.args) > 1 else ""
+        # inside a helper the AST is a parameter: it must be bound to sync_property's input_ast at every call site
+        if g is not spy and isinstance(c.args[1] if len(c.args) > 1 else None, ast.Name) and a1 in g.params:
+            sites = region.callsites.get(g.qual, ())
+            pos = g.params.index(a1)
+            bound = {norm(cs.args[pos]) if pos < len(cs.args) else next((norm(k.value) for k in cs.keywords if k.arg == a1), "") for _c, cs in sites}
+            if bound == {"input_ast"}:
+                a1 = "input_ast"
         ok = a1 == "input_ast"
         ctx.ob(
             "C13.index",
-            spy,
-            c,
+            g,
+            "find_in_ast is applied to {}".format(a1),
             ok,
             ""
             if ok
